@@ -1,4 +1,6 @@
 import PilotaModel.TGen.Decode
+import PilotaModel.TGen.Keep
+import PilotaModel.TGen.Mem
 import Driver.Thrift
 /-
   Line-protocol verbs for emitted Thrift code (harness/genrun).  Documents are registered by
@@ -33,12 +35,32 @@ def inputOf (p : Proto) (v : TVal) : Out Bytes :=
 
 open Driver.Thrift in
 /-- decode the item `n` of `d` from `bs` under protocol `p`; returns the value and the remaining length. -/
-def decodeWith (d : Doc) (n : String) (p : Proto) (bs : Bytes) : Out (TVal × Nat) :=
+def decodeWith (d : Doc) (n : String) (p : Proto) (bs : Bytes) (keep : Bool := false) : Out (TVal × Nat) :=
+  if keep then
+    match p with
+    | .bin => mapOut (fun x => (x.1, x.2.length)) (decodeK .be (some skipDepth) d n bs)
+    | .ubin => mapOut (fun x => (x.1, x.2.length)) (decodeK .be none d n bs)
+    | _ => .err .other
+  else
   match p with
   | .bin => mapOut (fun x => (x.1, x.2.length)) (decode (binRd .be (some skipDepth)) d n bs)
   | .ubin => mapOut (fun x => (x.1, x.2.length)) (decode (binRd .be none) d n bs)
   | .le => mapOut (fun x => (x.1, x.2.length)) (decode (binRd .le (some skipDepth)) d n bs)
   | .cmp => mapOut (fun x => (x.1, x.2.2.length)) (decode cmpRd d n (({} : Compact.CR), bs))
+
+open Driver.Thrift in
+/-- does the failing decode of this prefix leave something unreachable? -/
+def leaksAt (d : Doc) (n : String) (p : Proto) (bs : Bytes) : Bool :=
+  let r : OutL Unit := match p with
+    | .bin | .ubin => match decodeL (binRd .be (some skipDepth)) d true n bs with
+      | .ok _ => .ok () | .err l => .err l | .panic => .panic | .fuel => .fuel
+    | .le => match decodeL (binRd .le (some skipDepth)) d true n bs with
+      | .ok _ => .ok () | .err l => .err l | .panic => .panic | .fuel => .fuel
+    | .cmp => match decodeL cmpRd d true n (({} : Compact.CR), bs) with
+      | .ok _ => .ok () | .err l => .err l | .panic => .panic | .fuel => .fuel
+  match r with
+  | .err l => l > 0
+  | _ => false
 
 def answer (docs : Docs) (items : List Sexp) : Option (Docs × String) := do
   let verb ← items.head? >>= Sexp.asAtom
@@ -47,20 +69,40 @@ def answer (docs : Docs) (items : List Sexp) : Option (Docs × String) := do
     let name ← items[1]? >>= Sexp.asAtom
     let d ← items[2]? >>= Doc.ofSexp
     pure ((name, d) :: docs.filter (·.1 != name), "ok")
-  | "gd" | "gb" | "ga" =>
+  | "gbs" =>
     let dn ← items[1]? >>= Sexp.asAtom
     let ty ← items[2]? >>= Sexp.asAtom
     let p ← items[3]? >>= Sexp.asAtom >>= Driver.Thrift.Proto.of
     let d ← (docs.find? (·.1 == dn)).map (·.2)
-    let idx := if verb == "ga" then 5 else 4
-    let input : Out Bytes ← if verb == "gb" then (.ok <$> (items[idx]? >>= Sexp.asHex)) else (inputOf p <$> (items[idx]? >>= TVal.ofSexp))
+    let bs ← items[5]? >>= Sexp.asHex
+    match decodeWith d ty p bs (dn.endsWith "k") with
+    | .ok (v, rem) => pure (docs, s!"ok {shown v} rem={rem}")
+    | o => pure (docs, o.cls)
+  | "gd" | "gb" | "ga" | "gab" =>
+    let dn ← items[1]? >>= Sexp.asAtom
+    let ty ← items[2]? >>= Sexp.asAtom
+    let p ← items[3]? >>= Sexp.asAtom >>= Driver.Thrift.Proto.of
+    let d ← (docs.find? (·.1 == dn)).map (·.2)
+    let idx := if verb == "ga" || verb == "gab" then 5 else 4
+    let input : Out Bytes ← if verb == "gb" || verb == "gab" then (.ok <$> (items[idx]? >>= Sexp.asHex)) else (inputOf p <$> (items[idx]? >>= TVal.ofSexp))
     match input with
     | .ok bs =>
-      match decodeWith d ty p bs with
+      match decodeWith d ty p bs (dn.endsWith "k") with
       | .ok (v, rem) =>
-        if verb == "ga" then pure (docs, s!"ok {shown v} pulled={bs.length - rem}")
+        if verb == "ga" || verb == "gab" then pure (docs, s!"ok {shown v} pulled={bs.length - rem}")
         else pure (docs, s!"ok {shown v} rem={rem}")
-      | o => pure (docs, o.cls)
+      | o => pure (docs, if (verb == "ga" || verb == "gab") && o.cls == "depth" then "err" else o.cls)
+    | _ => pure (docs, "err-input")
+  | "gl" =>
+    let dn ← items[1]? >>= Sexp.asAtom
+    let ty ← items[2]? >>= Sexp.asAtom
+    let p ← items[3]? >>= Sexp.asAtom >>= Driver.Thrift.Proto.of
+    let d ← (docs.find? (·.1 == dn)).map (·.2)
+    let v ← items[4]? >>= TVal.ofSexp
+    match inputOf p v with
+    | .ok bs =>
+      let cuts := (List.range bs.length).filter fun c => leaksAt d ty p (bs.take c)
+      pure (docs, s!"ok n={bs.length} leaks={Driver.Thrift.csv cuts}")
     | _ => pure (docs, "err-input")
   | "gf" =>
     let dn ← items[1]? >>= Sexp.asAtom
